@@ -22,7 +22,8 @@ splitter tries one prefix ('da' first) and accepts it only for a table entry who
 prefix spellings carry SI values (the three micro spellings and both milli spellings agree); (R4) unit_symbols builds every
 exported name from its canonical spelling in the default registry, constants are imported before units (documented
 precedence), add_symbols builds the same names for a custom registry; (R5) the prefixable flag of every row equals the
-documented one and no documented unit is missing."""
+documented one and no documented unit is missing.
+(R6) generate_name_alternatives files every spelling through one nested routine (list append + alias-map store, paired); for every call of it - helpers inlined - the list written is names[K] for the very canonical key K given to the alias map, up to a canonical re-spelling local; (R7) the parser's constant text rewrites, folded from the source and applied to every documented name containing a rewritten character, must again give a documented name of the same unit (one known finding: word-prefixed degree-sign spellings)."""
 LEVEL_NOTE = """Undecided: that the ~3900 generated names actually resolve at run time (the loops of
 generate_name_alternatives and unit_symbols are executed code, not tables); only the table-level preconditions and the
 shape of the resolution code are decided."""
